@@ -71,6 +71,11 @@ let () = each_line (fun l ->
     if not (gate_nsame a lz) then fail "useless";
     if not (nfa_same lz (nuseless a)) then drf "useless";
     dump "L" lz;
+    (* the same with the optional translation map *)
+    expect t "NM"; let nm = read_w t in expect t "LM"; let lm = read_w t in expect t "VM"; let vm = read_w t in
+    if not (gate_nsame a nm) then fail "unreach_with_map";
+    if not (gate_nsame a lm) then fail "useless_with_map";
+    if not (gate_nreverse a vm) then fail "reverse_with_map";
     (* GetCandidateTree *)
     expect t "C"; let cd = read_w t in
     if not (gate_ncandidate a cd) then fail "candidate";
